@@ -3,6 +3,10 @@
 // verified).  Strings are modelled as Seq<char>.  See DESIGN.md 3.3.
 
 use std::collections::HashMap;
+#[allow(unused_imports)]
+use std::fs::File;
+#[allow(unused_imports)]
+use std::fs;
 
 // ---------- sequences of strings ----------
 pub open spec fn cat(ss: Seq<Seq<char>>) -> Seq<char>
@@ -1270,3 +1274,36 @@ impl RwsRemove for String {
         ensures final(self)@ == old(self)@.subrange(1, old(self)@.len() as int), r == old(self)@[0],
     { self.remove(i) }
 }
+
+// ---------- std::fs functions that create, delete, rename or alter a file or directory (property C13): callable from NO code under
+// contract - each is declared with `requires false`, so a call is a named, failing obligation ----------
+#[verifier::external_type_specification]
+#[verifier::external_body]
+pub struct ExFile(std::fs::File);
+#[verifier::allow(undeclared_external_trait)]
+pub assume_specification<P: AsRef<std::path::Path>, C: AsRef<[u8]>>[ std::fs::write::<P, C> ](path: P, contents: C) -> (r: std::io::Result<()>)
+    requires false;
+#[verifier::allow(undeclared_external_trait)]
+pub assume_specification<P: AsRef<std::path::Path>>[ std::fs::remove_file::<P> ](path: P) -> (r: std::io::Result<()>)
+    requires false;
+#[verifier::allow(undeclared_external_trait)]
+pub assume_specification<P: AsRef<std::path::Path>>[ std::fs::remove_dir::<P> ](path: P) -> (r: std::io::Result<()>)
+    requires false;
+#[verifier::allow(undeclared_external_trait)]
+pub assume_specification<P: AsRef<std::path::Path>>[ std::fs::remove_dir_all::<P> ](path: P) -> (r: std::io::Result<()>)
+    requires false;
+#[verifier::allow(undeclared_external_trait)]
+pub assume_specification<P: AsRef<std::path::Path>>[ std::fs::create_dir::<P> ](path: P) -> (r: std::io::Result<()>)
+    requires false;
+#[verifier::allow(undeclared_external_trait)]
+pub assume_specification<P: AsRef<std::path::Path>>[ std::fs::create_dir_all::<P> ](path: P) -> (r: std::io::Result<()>)
+    requires false;
+#[verifier::allow(undeclared_external_trait)]
+pub assume_specification<P: AsRef<std::path::Path>, Q: AsRef<std::path::Path>>[ std::fs::rename::<P, Q> ](from: P, to: Q) -> (r: std::io::Result<()>)
+    requires false;
+#[verifier::allow(undeclared_external_trait)]
+pub assume_specification<P: AsRef<std::path::Path>, Q: AsRef<std::path::Path>>[ std::fs::copy::<P, Q> ](from: P, to: Q) -> (r: std::io::Result<u64>)
+    requires false;
+#[verifier::allow(undeclared_external_trait)]
+pub assume_specification<P: AsRef<std::path::Path>>[ std::fs::File::create::<P> ](path: P) -> (r: std::io::Result<std::fs::File>)
+    requires false;
